@@ -78,6 +78,10 @@ struct Scenario {
     prior: Vec<u8>, // 0 listening, 1 master via timeout, 2 via round 1, 3 faulty (p2p)
     /// P2P ports that turn Faulty only after the round-2 Announces were received (just before the BMCA run)
     late_fault: Vec<bool>,
+    /// run the BMCA once before round 2 even if no master spoke in round 1
+    warm_bmca: bool,
+    /// own clock quality changed at run time (PtpInstance::set_clock_quality) before round 2
+    quality2: Option<(u8, u8, u16)>,
 }
 
 fn make_faulty(w: &mut World, spec: &NodeSpec, p: usize, ch: &mut Chooser) {
@@ -123,8 +127,15 @@ fn execute(sc: &Scenario, order2: &[usize], ch: &mut Chooser) -> (Outcome, Vec<P
         }
         let _ = rep;
     }
-    if any_r1 {
+    if any_r1 || sc.warm_bmca {
         w.run_bmca(0, ch);
+    }
+    if let Some((class, acc, var)) = sc.quality2 {
+        w.nodes[0].inst.set_clock_quality(statime::config::ClockQuality {
+            clock_class: class,
+            clock_accuracy: crate::host::accuracy_from_u8(acc),
+            offset_scaled_log_variance: var,
+        });
     }
     // round 2: every master delivers two Announces, interleaved as given by `order2`
     // (order2 lists master indices, each exactly twice)
@@ -163,6 +174,7 @@ impl Check for C05 {
     }
     fn run(&self, ch: &mut Chooser, _tier: Tier) -> RunOutcome {
         let np = ch.range(S_CFG, 1, 3) as usize;
+        let mut out_probe_quality = false;
         let mut spec = NodeSpec::default();
         spec.id = *ch.pick(S_CFG, &OWN_IDS);
         spec.priority1 = *ch.pick(S_CFG, &[128u8, 100, 200]);
@@ -210,7 +222,20 @@ impl Check for C05 {
                 prior[p] = 0;
             }
         }
-        let sc = Scenario { spec: spec.clone(), masters: masters.clone(), prior: prior.clone(), late_fault: late_fault.clone() };
+        let warm_bmca = ch.chance(S_WORK, 1, 3);
+        let quality2 = if ch.chance(S_WORK, 1, 4) {
+            Some((*ch.pick(S_WORK, &[6u8, 248, 127, 128, 187]), *ch.pick(S_WORK, &[0x21u8, 0xfe]), *ch.pick(S_WORK, &[0x4e5du16, 0xffff])))
+        } else {
+            None
+        };
+        let sc = Scenario { spec: spec.clone(), masters: masters.clone(), prior: prior.clone(), late_fault: late_fault.clone(), warm_bmca, quality2 };
+        // the own attributes the final BMCA run has to work with
+        if let Some((class, acc, var)) = quality2 {
+            spec.class = class;
+            spec.accuracy = acc;
+            spec.variance = var;
+            out_probe_quality = true;
+        }
         // two interleavings of the round-2 deliveries
         let mut base: Vec<usize> = (0..nm).flat_map(|i| [i, i]).collect();
         let order_a = base.clone();
@@ -320,6 +345,9 @@ impl Check for C05 {
         let unique = !(tie_somewhere || same_clock_senders);
         if !unique {
             out.probe("tie_between_candidates_reference_comparison_skipped");
+        }
+        if out_probe_quality {
+            out.probe("own_quality_changed_at_run_time_before_final_bmca");
         }
         if unique && out_a.states != want_states {
             out.violate(
